@@ -474,7 +474,7 @@ func (x *Exec) step(st *State, in ssa.Instruction) bool {
 			st.clos = map[string]Val{}
 		}
 		st.clos[r.Key()] = st.regs[i]
-		if x.full && closureEscapes(i) {
+		if closureEscapes(i) {
 			x.checkCapture(st, i, fn, binds)
 		}
 	case *ssa.ChangeType:
